@@ -529,12 +529,18 @@ func (b *BlockWise[C]) continueSendingMessage(w *responsewriter.ResponseWriter[C
 	}
 	var sendMessage *pool.Message
 	var more bool
-	b.sendingMessagesCache.LoadWithFunc(r.Token().Hash(), func(value *cache.Element[*pool.Message]) *cache.Element[*pool.Message] {
+	// under the write lock: the block is cut out of the one body the transfer shares by Seek and Read,
+	// which two messages of the transfer processed concurrently (a duplicate, a goroutine per message)
+	// must not interleave
+	b.sendingMessagesCache.ReplaceWithFunc(r.Token().Hash(), func(value *cache.Element[*pool.Message], loaded bool) (*cache.Element[*pool.Message], bool) {
+		if !loaded {
+			return nil, true
+		}
 		sendMessage, more, err = b.createSendingMessage(value.Data(), maxSZX, maxMessageSize, block, false)
 		if err != nil {
 			err = fmt.Errorf("cannot create sending message: %w", err)
 		}
-		return nil
+		return value, false
 	})
 	if err == nil && sendMessage == nil {
 		err = fmt.Errorf("cannot find sending message for token(%v)", r.Token())
